@@ -475,7 +475,7 @@ CHECKS = {
         "discard against free-running children on the real library (the thread-safe sink while another thread keeps taking the mutex and watches the strings); non-trivial = a drain/run was compared",
         {"drains": 1500, "sink_calls": 10000, "closing_calls": 900, "sink_failures": 50, "string_sinks": 150,
          "realloc_faults_fired": 50, "timeouts": 50, "runs": 300, "cxx_cases": 400, "cxx_sink_calls": 1500,
-         "cxx_runs": 100, "cxx_string_sinks": 50, "cxx_timeouts": 50, "cxx_looks_under_mutex": 100, "cxx_runs_that_must_stop_the_child": 40},
+         "cxx_runs": 100, "cxx_string_sinks": 50, "cxx_timeouts": 50, "cxx_looks_under_mutex": 20, "cxx_runs_that_must_stop_the_child": 40},
         assumptions=KERNEL_TRUST + ["the C++ pass runs free-running helper children in real time: only time-independent facts are asserted (plus 'an expired deadline with open streams yields timed_out')"],
         extra=cxxio_pass),
     "C17": scen_check(
